@@ -259,6 +259,56 @@ def f_no_guard_call(P, E):
     return r
 
 
+def f_slot_truth(P, E):
+    """The slot cell (`inner`) is the only owner of the wrapped callable and every query / invocation goes
+    through it: then emptying the slot revokes the callable for everybody, which is what the terminal
+    and unsubscribe logic of Observer relies on."""
+    r = RuleResult("F-slot-truth", "FunctionWrapper: the callable is owned only by the slot cell, and exists/empty/call* read that cell")
+    a = P.adts.get(FW)
+    if a is None or len(a["variants"]) != 1:
+        r.error("anchor missing: struct FunctionWrapper")
+        return r
+
+    def mentions_callable(t, depth=0):
+        if not isinstance(t, dict) or depth > 10:
+            return False
+        if t.get("k") == "dyn":
+            return True
+        if t.get("k") == "adt" and norm(t.get("path") or "").endswith("FunctionWrapperInner"):
+            return True
+        return any(mentions_callable(x, depth + 1) for x in (t.get("args") or [])) or mentions_callable(t.get("inner"), depth + 1)
+    owners = [f["name"] for f in a["variants"][0]["fields"] if mentions_callable(f["ty"])]
+    r.instance((FW, "owners of the callable"), True, "fields %s" % owners)
+    if len(owners) != 1:
+        r.violate((FW, "callable owned outside the slot"),
+                  "FunctionWrapper has %d fields that can reach the wrapped callable (%s): a handle that bypasses the slot's lock "
+                  "keeps the callable invocable (or 'existing') after the slot was emptied" % (len(owners), owners))
+    for b in P.methods_of(FW):
+        if b.id in P.absorbed or b.name in ("new", "clone") or b.impl_trait:
+            continue
+        acqs, _, _ = _inner_guard_acqs(b)
+        ret_bool = b.locals[0]["ty"].get("s") == "bool"
+        inv = _invocation_sites(P, E, b)
+        if not (ret_bool or inv):
+            continue
+        r.instance((b.nid, "reads the slot"), True, "inner acquisitions %s" % sorted(acqs))
+        delegates = [c for c in b.calls if c.path.startswith(FW + "::") and c.args and
+                     all(rk == "param" and rd == 1 and not path for (rk, rd, path) in b.operand_prov(c.args[0]))]
+        if not acqs and delegates and not _invoke_blocks(b):
+            continue          # answers through another method of the same wrapper, which is checked itself
+        if not acqs:
+            r.violate((b.nid, "does not read the slot"),
+                      "%s answers / invokes without acquiring the slot cell: it cannot see that the slot was emptied" % b.nid, body=b)
+            continue
+        for c in _invoke_blocks(b):
+            prov = b.operand_prov(c.args[0]) if c.args else frozenset()
+            if prov and not any(rk == "param" and rd == 1 and path[:1] == ("inner",) for (rk, rd, path) in prov):
+                r.violate((b.nid, "callable not taken from the slot"),
+                          "the callable invoked in %s does not come out of the slot cell (%s)" % (b.nid, sorted(b.term_name(t) for t in prov)),
+                          body=b, line=c.line)
+    return r
+
+
 def f_atomic_take(P, E):
     r = RuleResult("F-atomic-take", "call_and_clear_if_available tests, clones out and clears the "
                                     "slot under ONE write guard and invokes after releasing it")
